@@ -499,6 +499,7 @@ def check(ctx):
             got = []
             for a in cc[0].args:
                 got.append(newf.describe_origin(newf.origin(a), deep=3))
+                got.extend(sorted(newf.feeding_calls(a)))       # `combine_hashes(&[a.as_str(), b.as_str(), ..])`
             need = sorted(set(k.split("::")[-1] for k in P.fns if re.match(r"^tauri_typegen::build::generation_cache::GenerationCache::hash_\w+$", k)))
             if all(any(n in g for g in got) for n in need):
                 r1b.ok("combine_hashes(%s)" % ", ".join(n for n in need))
